@@ -55,7 +55,7 @@ func (e *emitter) op(name string, args ...string) string {
 	if !ok {
 		panic("corr: unregistered op " + name)
 	}
-	res := guard(func() string { return f(args) })
+	res := guardT(opLimit(name), func() string { return f(args) })
 	fmt.Fprintf(e.w, "%s %s\t%s\n", name, strings.Join(args, " "), res)
 	return res
 }
@@ -81,8 +81,20 @@ func runLines(e *emitter) {
 	}
 }
 
+// opLimits: ops that need more than the default 5 s (e.g. scenarios executed in a child process)
+var opLimits = map[string]time.Duration{}
+
+func opLimit(name string) time.Duration {
+	if d, ok := opLimits[name]; ok {
+		return d
+	}
+	return 5 * time.Second
+}
+
 // guard runs f, mapping a Go panic to "panic" and a run longer than the limit to "hang".
-func guard(f func() string) (res string) {
+func guard(f func() string) (res string) { return guardT(5*time.Second, f) }
+
+func guardT(limit time.Duration, f func() string) (res string) {
 	done := make(chan string, 1)
 	go func() {
 		defer func() {
@@ -99,7 +111,7 @@ func guard(f func() string) (res string) {
 	select {
 	case r := <-done:
 		return r
-	case <-time.After(5 * time.Second):
+	case <-time.After(limit):
 		return "hang"
 	}
 }
